@@ -198,6 +198,21 @@ def extract() -> dict:
 
     class_defs = []
     n_defs = 0
+    ann_lists = []          # (class id, [attr name ids annotated as list[...]])
+
+    def annotated_list_attrs(c):
+        out = []
+        anns = {}
+        for k in reversed(c.__mro__):
+            anns.update(getattr(k, "__annotations__", {}) or {})
+        for d in getattr(c, "avp_def", ()) or ():
+            a = anns.get(getattr(d, "attr_name", None))
+            if a is None:
+                continue
+            txt = a if isinstance(a, str) else getattr(a, "__name__", "") + str(a)
+            if str(txt).replace("typing.", "").lstrip().lower().startswith("list"):
+                out.append(names.id(d.attr_name))
+        return out
 
     def class_def(c, is_msg: bool):
         nonlocal n_defs
@@ -259,8 +274,10 @@ def extract() -> dict:
     for c in msg_classes:
         if issubclass(c, DefinedMessage):
             class_defs.append(class_def(c, True))
+            ann_lists.append((cid(c), annotated_list_attrs(c)))
     for c in container_classes:
         class_defs.append(class_def(c, False))
+        ann_lists.append((cid(c), annotated_list_attrs(c)))
     info["class_defs"] = len(class_defs)
     info["attr_defs"] = n_defs
 
@@ -425,7 +442,7 @@ def extract() -> dict:
 
     class_paths = {str(i): [c.__module__, c.__qualname__] for c, i in cls_id.items()}
     return dict(names=names, notes=notes, info=info, entries=entries, clashes=clashes, class_paths=class_paths,
-                class_defs=class_defs, mclasses=mclasses, registry=registry,
+                class_defs=class_defs, ann_lists=ann_lists, mclasses=mclasses, registry=registry,
                 special=special, consts=consts, ready_states=ready_states)
 
 
@@ -482,6 +499,9 @@ def emit(x: dict) -> dict:
         items.append("{ id := %d, name := %d, isMessage := %s, defs := [%s], additional := %d, intDefaults := [%s], oddDefaults := [%s], assigns := %s }"
                      % (i, nm, b(is_msg), ds, additional, idf, od, b(assigns)))
     s += chunked_list("classes", "ClassDef", items, 8)
+    s += "\n/-- per class: the attributes whose annotation is `list[...]` (they must be lists after construction) -/\n"
+    s += chunked_list("annotatedLists", "(Nat × List Nat)",
+                      ["(%d, [%s])" % (ci, ", ".join(map(str, l))) for ci, l in x["ann_lists"]], 64)
     s += "\nend DV.Gen\n"
     changed["Classes"] = write_if_changed(os.path.join(GEN, "Classes.lean"), s)
 
@@ -523,6 +543,7 @@ def main():
     x = extract()
     changed = emit(x)
     import extract_threads
+    extract_threads.GEN = GEN          # (the module may have been found through a resolved symlink: write where this run writes)
     tx = extract_threads.extract()
     changed["Threads"] = extract_threads.emit(tx, write_if_changed)
     x["info"]["thread_skeleton_notes"] = tx["notes"]
